@@ -580,7 +580,8 @@ def check_law(env, name, law, vx, vg):
     if law == "simplices":
         return None if len(vx) == len(vg) else "number of surface simplices changed: %d vs %d" % (len(vx), len(vg))
     if law in ("dimensionless",):
-        return None if env.close(vx, vg, 1.0) else "dimensionless descriptor changed: %r vs %r" % (vx, vg)
+        mag = max(1.0, abs(float(vx)), abs(float(vg)))      # iq, tau <= 1; asphericity is unbounded for flat shapes
+        return None if env.close(vx, vg, mag) else "dimensionless descriptor changed: %r vs %r" % (vx, vg)
     if law == "count":
         return None if vx == vg else "count changed: %r vs %r" % (vx, vg)
     if law == "semi_axis":
